@@ -12,6 +12,8 @@
   NOT proved (and false as a general statement): "each rule reports in the chain what it reports alone". The children
   of a node at which SOME member raises `SkipNode` are visited by nobody, so another member loses the reports it would
   make inside that sub-tree (and its collectors lose what they would record there); see the note at the end.
+  What IS true and proved (`Props/C06_chain.lean: chain_silent_iff_alone`, `chainM_silent_iff_alone`): the chain records
+  NO error iff every member alone records none - a skipping member has just reported (`skip_reports`).
 -/
 import PyGqlModel.Lemmas.ValidateTyped
 import PyGqlModel.Lemmas.ValidateWalkG
